@@ -86,3 +86,31 @@ def canon(path):
     t = tuple(path)
     r = t[::-1]
     return min(t, r)
+
+
+def contraction_chain(t, ne, min_interfaces=3):
+    """True iff the mesh contains a connected run of `min_interfaces` or more two-point BORDER interfaces that would be
+    contracted (both ends in fewer than three cells, fewer than two cells in common), or a closed ring of them.  Runs of two
+    (the tops of two neighbouring cells) are contracted correctly by the package and are no excuse for anything."""
+    two = [vp for vp, ep in t.paths if len(vp) == 2 and len(vp) <= ne and len(t.vcells[vp[0]]) < 3 and len(t.vcells[vp[1]]) < 3
+           and len(t.vcells[vp[0]] & t.vcells[vp[1]]) < 2]
+    adj = {}
+    for a, b in two:
+        adj.setdefault(a, set()).add(b)
+        adj.setdefault(b, set()).add(a)
+    seen = set()
+    for x in adj:
+        if x in seen:
+            continue
+        comp, st = set(), [x]
+        while st:
+            y = st.pop()
+            if y in comp:
+                continue
+            comp.add(y)
+            st += list(adj[y] - comp)
+        seen |= comp
+        nif = sum(1 for a, b in two if a in comp)
+        if nif >= min_interfaces or (nif >= len(comp) and nif >= 2):
+            return True
+    return False
